@@ -33,11 +33,43 @@ def bait(rnd, src):
     return "\n".join(lines)
 
 
+def add_tail_shapes(p):
+    """Functions whose last expression is an `if` or a `match` ending in `return`: the places where a lint
+    about unnecessary returns has to know what is in tail position (an else-less `if` is not)."""
+    import gen_prog
+    g = gen_prog.Gen(0)
+    g.nid = 300000
+    n = g.node
+    V = lambda x: n("var", n=x)
+    I = lambda v: n("int", v=v)
+    P = lambda op, l, r: n("paren", e=n("bin", op=op, l=l, r=r))
+    zt1 = {"n": "zt1", "ps": ["k"], "pt": ["Int"], "rt": "", "line": 0, "b": [
+        n("if", c=P(">", V("k"), I(5)), t=[n("print", v="t1 "), n("ret", e=n("str", v="big"))], f=[], inline=False, **{"else": False})]}
+    zt2 = {"n": "zt2", "ps": ["k"], "pt": ["Int"], "rt": "Int", "line": 0, "b": [
+        n("if", c=P(">", V("k"), I(5)), t=[n("ret", e=I(1))], f=[n("ret", e=I(2))], inline=False, **{"else": True})]}
+    zt3 = {"n": "zt3", "ps": ["k"], "pt": ["Int"], "rt": "Int", "line": 0, "b": [
+        n("match", s=n("mcall", m="get", recv=n("list", xs=[I(5)]), args=[V("k")]), arms=[
+            {"v": "Some", "bind": "zm", "wild": False, "b": [n("ret", e=V("zm"))]},
+            {"v": "None", "bind": "", "wild": False, "b": [n("ret", e=I(0))]}])]}
+    zt4 = {"n": "zt4", "ps": ["k"], "pt": ["Int"], "rt": "Int", "line": 0, "b": [n("ret", e=P("+", V("k"), I(1)))]}
+    p["funs"] += [zt1, zt2, zt3, zt4]
+    for f, a in (("zt1", 9), ("zt1", 1), ("zt2", 9), ("zt2", 1), ("zt3", 0), ("zt3", 4), ("zt4", 1)):
+        p["main"].append(n("show", e=n("call", f=V(f), args=[I(a)])))
+
+
 def run(tier, seed):
     ck = Check("C22", "model_checking", tier, seed)
     rnd = random.Random(seed * 79 + 22)
-    tres, origs = rf.originals(seed + 221, 150 if tier == "quick" else 1500, size=5, err_rate=0.0)
+    import gen_prog
+    import refrun
+    progs, srcs = refrun.gen_programs(seed + 221, 150 if tier == "quick" else 1500, 5, err_rate=0.0)
+    for p in progs:
+        if p["id"] % 4 == 0:
+            add_tail_shapes(p)
+            srcs[p["id"]] = gen_prog.render(p)
+    tres, exp = refrun.ref_expect(progs)
     ck.add_tlc(tres)
+    origs = [(p, srcs[p["id"]], exp[p["id"]]) for p in progs if exp[p["id"]]["outcome"] == "ok"]
     cases = []
     for p, s, e in origs:
         cases.append((s, e, "as generated"))
